@@ -132,6 +132,22 @@ def synthetic_reactions(tier="quick"):
     add("3b_0_1_hh1", *t3(1, 0, 1, h, h, 1))
     add("3b_1_h_nu", *t3(2, 1, h, h, 0, h, masses=(3.0, 1.2, 0.3, 0.4, 0.0)))  # massless spin 1/2
     add("3b_h_1_gamma", *t3(0, h, h, h, 0, 1, masses=(3.0, 1.2, 0.3, 0.4, 0.0)))  # massless spin 1
+    # four-body CASCADE X -> c (R1 -> b (R2 -> a a')): a spin-1/2 final state hangs directly on the
+    # production node (its helicity suffix lists two isobars, e.g. "_0^23,123")
+    for top in topologies_of(reactions.load("d0_k3pi_hel")):
+        (init,) = top.incoming_edge_ids
+        root = top.edges[init].ending_node_id
+        direct = [e for e in top.get_edge_ids_outgoing_from_node(root) if e in top.outgoing_edge_ids]
+        if len(direct) != 1:
+            continue  # the (AB)(CD) topology
+        spec = {e: (0, 0.3 + 0.05 * e) for e in top.outgoing_edge_ids}
+        spec[direct[0]] = (h, 0.9)
+        spec[init] = (h, 4.0)
+        inter = sorted(top.intermediate_edge_ids, key=lambda e: top.edges[e].originating_node_id != root)
+        spec[inter[0]] = (1, 2.0)   # R1, child of the production node
+        spec[inter[1]] = (0, 1.0)   # R2
+        add("4b_cascade_h_h", top, spec)
+        break
     if tier == "thorough":
         t = Fraction(3, 2)
         f = Fraction(5, 2)
